@@ -44,3 +44,13 @@ Theorem C11_end_reported_at_most_once :
     (count_cb (model_trace r stored local es) <= 1)%nat.
 Proof. exact closed_reported_at_most_once. Qed.
 Print Assumptions C11_end_reported_at_most_once.
+
+(* causes that coincide on different goroutines: the model's flag "once" (Conn.cs.once) stands
+   for the sync.Once around the whole body of CloseConnection - with it the body runs at most once
+   under every interleaving of closers (Go's contract for sync.Once, trusted), so that the
+   sequential theorem above carries over; the flag is read off the source on every run, and the
+   stream of connections closed by several goroutines released together counts the reports *)
+From ShipGen Require Import ConnTable.
+Theorem C11_close_body_runs_inside_sync_once : close_body_once = true.
+Proof. reflexivity. Qed.
+Print Assumptions C11_close_body_runs_inside_sync_once.
